@@ -1388,7 +1388,8 @@ def typearg_cases(jobs):
         from ovld import call_next as _call_next
 
         els = w["elements"]
-        ns = {"LOG": [], "typing": typing, "call_next": _call_next}
+        from ovld import Dependent as _Dependent
+        ns = {"LOG": [], "typing": typing, "call_next": _call_next, "Dependent": _Dependent, "ALWAYS": (lambda v: True)}
         objs = {}
         for n, e in enumerate(els, start=1):
             if n == 1:
@@ -1416,6 +1417,9 @@ def typearg_cases(jobs):
                     ann = f"type[A{n}]"      # object written typing.Any: type[Any], type[list[Any]]
                 else:
                     ann = f"type[E{n}]"
+                if m.get("depwrap") and ann.startswith("type"):
+                    # the same annotation as the bound of a value-dependent type whose condition always holds
+                    ann = f"Dependent[{ann}, ALWAYS]"
                 params.append(f"p{i + 1}: {ann}")
             if m.get("posonly"):
                 # positional-only parameters (every method of the world alike)
